@@ -601,12 +601,14 @@ class ADEV(Pytree):
                             )
                         )
 
-                        # NOTE: JAX stores conditional branches in reverse order in the params.
-                        # We reverse them here to match the expected order for jax.lax.cond.
-                        # This is a JAX implementation detail that may change in future versions.
-                        return jax.lax.cond(
+                        # The first operand of `cond_p` is the branch *index* (for
+                        # `lax.cond`: 0 = false branch, 1 = true branch) and
+                        # `params["branches"]` is in index order, so dispatching with
+                        # `lax.switch` covers both `lax.cond` and N-way `lax.switch`.
+                        return jax.lax.switch(
                             Dual.tree_primal(in_vals[0]),
-                            *it.chain(reversed(branch_adev_functions), in_vals[1:]),
+                            branch_adev_functions,
+                            *in_vals[1:],
                         )
 
                     # Default JVP rule for other JAX primitives.
@@ -633,16 +635,32 @@ class ADEV(Pytree):
                             else:
                                 jvp = jax_autodiff.primitive_jvps.get(eqn.primitive)
                                 if not jvp:
-                                    msg = f"differentiation rule for '{eqn.primitive}' not implemented"
-                                    raise NotImplementedError(msg)
-                                primal_outs, tangent_outs = jvp(
-                                    flat_primals, canonical_tangents, **params
-                                )
+                                    # Primitives that JAX differentiates through its
+                                    # tracer machinery rather than a registered rule
+                                    # (custom_jvp / custom_vjp calls such as
+                                    # jax.nn.relu): let jax.jvp do it.
+                                    primal_outs, tangent_outs = jax.jvp(
+                                        lambda *ps: eqn.primitive.bind(*ps, **params),
+                                        tuple(flat_primals),
+                                        tuple(
+                                            _instantiate_zero_tangents(
+                                                list(canonical_tangents)
+                                            )
+                                        ),
+                                    )
+                                else:
+                                    primal_outs, tangent_outs = jvp(
+                                        flat_primals, canonical_tangents, **params
+                                    )
                                 tangent_outs = _instantiate_zero_tangents(tangent_outs)
 
                 if not eqn.primitive.multiple_results:
                     primal_outs = [primal_outs]
                     tangent_outs = [tangent_outs]
+                else:
+                    # JVP rules are free to return lists or tuples (e.g. top_k).
+                    primal_outs = list(primal_outs)
+                    tangent_outs = list(tangent_outs)
 
                 jax_util.safe_map(
                     dual_env.write,
